@@ -257,30 +257,35 @@ pub(crate) mod b {
     /// end points coincide with ends of the adjoining lines and whose centre lies on the inner side
     #[test]
     fn bounded_rounded_corners() {
-        let styles: [[char; 4]; 2] = [['.', '.', '\'', '\''], [',', '.', '`', '\'']];
+        // (corner characters, inset): inset 0 = corners above / below the sides; inset 1 = the wide style
+        //   .----.
+        //  |      |       with the corners one column inside the sides
+        //   '----'
+        let styles: [([char; 4], usize); 3] = [(['.', '.', '\'', '\''], 0), ([',', '.', '`', '\''], 0), (['.', '.', '\'', '\''], 1)];
         let mut n = 0u64;
-        for c in styles {
+        for (c, inset) in styles {
             for w in 1..=8usize {
                 for h in 1..=5usize {
                     for (ox, oy) in [(2usize, 1usize), (11, 4)] {
-                        let mut puts = vec![(oy, ox, c[0]), (oy, ox + w + 1, c[1]), (oy + h + 1, ox, c[2]), (oy + h + 1, ox + w + 1, c[3])];
-                        for k in 1..=w {
-                            puts.push((oy, ox + k, '-'));
-                            puts.push((oy + h + 1, ox + k, '-'));
+                        let (left, right) = (ox, ox + w + 1 + 2 * inset);
+                        let mut puts = vec![(oy, left + inset, c[0]), (oy, right - inset, c[1]), (oy + h + 1, left + inset, c[2]), (oy + h + 1, right - inset, c[3])];
+                        for k in (left + inset + 1)..(right - inset) {
+                            puts.push((oy, k, '-'));
+                            puts.push((oy + h + 1, k, '-'));
                         }
                         for k in 1..=h {
-                            puts.push((oy + k, ox, '|'));
-                            puts.push((oy + k, ox + w + 1, '|'));
+                            puts.push((oy + k, left, '|'));
+                            puts.push((oy + k, right, '|'));
                         }
-                        // the stub: a line leaving the top right corner region, attached to the right side
-                        puts.push((oy + 1, ox + w + 2, '-'));
-                        puts.push((oy + 1, ox + w + 3, '-'));
+                        // the stub: a line attached to the right side, so that the outline is not endorsed as a rect
+                        puts.push((oy + 1, right + 1, '-'));
+                        puts.push((oy + 1, right + 2, '-'));
                         let text = grid(24, 40, &puts);
                         let frags = fragments_of(&text);
                         let arcs: Vec<&crate::fragment::Arc> = frags.iter().filter_map(|f| f.as_arc()).collect();
                         let lines: Vec<&crate::fragment::Line> = frags.iter().filter_map(|f| f.as_line()).collect();
-                        let (x0, y0) = (ox as f32 + 0.5, oy as f32 * 2.0 + 1.0);
-                        let (x1, y1) = ((ox + w + 1) as f32 + 0.5, (oy + h + 1) as f32 * 2.0 + 1.0);
+                        let (x0, y0) = (left as f32 + 0.5, oy as f32 * 2.0 + 1.0);
+                        let (x1, y1) = (right as f32 + 0.5, (oy + h + 1) as f32 * 2.0 + 1.0);
                         let mut why = String::new();
                         let ok = (|| {
                             if arcs.len() != 4 {
@@ -295,8 +300,13 @@ pub(crate) mod b {
                                     }
                                 }
                                 let ctr = a.center();
-                                if !(ctr.x > x0 - 1e-3 && ctr.x < x1 + 1e-3 && ctr.y > y0 - 1e-3 && ctr.y < y1 + 1e-3)
-                                    || (ctr.x - x0).abs() < 1e-3 && (ctr.y - y0).abs() < 1e-3 {
+                                // strictly inside the box spanned by the sides and the horizontal edges, and on
+                                // the box side of the chord (the corner bulges outward)
+                                let inside = ctr.x > x0 - 1e-3 && ctr.x < x1 + 1e-3 && ctr.y > y0 - 1e-3 && ctr.y < y1 + 1e-3;
+                                let mid = Point::new((a.start.x + a.end.x) / 2.0, (a.start.y + a.end.y) / 2.0);
+                                let box_c = Point::new((x0 + x1) / 2.0, (y0 + y1) / 2.0);
+                                let towards_box = (ctr.x - mid.x) * (box_c.x - mid.x) + (ctr.y - mid.y) * (box_c.y - mid.y) > 0.0;
+                                if !inside || !towards_box {
                                     why = format!("centre {} of arc {} is not on the inner side of the outline ({},{})-({},{})", ctr, a, x0, y0, x1, y1);
                                     return false;
                                 }
@@ -304,7 +314,7 @@ pub(crate) mod b {
                             true
                         })();
                         if !ok {
-                            println!("BOUNDED-WITNESS rounded outline {:?} {}x{} at ({},{}): {}\n{}", c, w, h, ox, oy, why, text.trim_matches('\n'));
+                            println!("BOUNDED-WITNESS rounded outline {:?} inset {} {}x{} at ({},{}): {}\n{}", c, inset, w, h, ox, oy, why, text.trim_matches('\n'));
                             panic!("rounded corners are continuous and bulge outward");
                         }
                         n += 1;
